@@ -203,6 +203,46 @@ def address_cases(chk, prog, ix, tested):
                "a request forwarded on behalf of a listed address would be served")
 
 
+ADDR_REWRITE = (r"(Ipv6Addr::to_ipv4|Ipv6Addr::to_ipv4_mapped|Ipv4Addr::to_ipv6_mapped|Ipv4Addr::to_ipv6_compatible|IpAddr::to_canonical|Ipv6Addr::to_canonical|"
+                r"Ipv4Addr::new|Ipv6Addr::new|Ipv4Addr::from_bits|Ipv6Addr::from_bits|Ipv4Addr::octets|Ipv6Addr::octets|Ipv6Addr::segments|"
+                r"Ipv4Addr::from_octets|Ipv6Addr::from_segments|Ipv6Addr::from_octets)$|IpAddr as std::convert::From<\[u")
+
+
+def address_identity(chk, prog):
+    """R4: the addresses compared with the blacklist are the addresses as parsed / as reported by the socket: nothing between
+    SocketAddr::ip() / IpAddr::from_str and `list.contains(..)` rewrites an address (mapping ::1 to 0.0.0.1, v4-mapped folding, ...),
+    since the list entries are compared by equality and are not rewritten the same way."""
+    roots = ["humphrey::http::address::Address::new", "humphrey::http::address::Address::from_headers",
+             "humphrey_server::server::server::verify_connection"] + [v for v in HANDLERS.values()] + ["humphrey_server::server::static::blacklist_check"]
+    roots = [r for r in roots if r in prog.bodies]
+    chk.floor("address producers / blacklist testers", len(roots), 6)
+    seen = set()
+    bad = []
+    n = 0
+    for r in roots:
+        fam = prog.reach_bodies([r], extra_edges=lambda bb: [c.path for c in prog.closures_of(bb.path)])
+        # only follow helpers that handle addresses
+        for pth in sorted(fam):
+            if pth in seen:
+                continue
+            bb = prog.bodies[pth]
+            if pth not in roots and not any("IpAddr" in (loc.get("ty") or "") or "Ipv6Addr" in (loc.get("ty") or "") or "Ipv4Addr" in (loc.get("ty") or "") for loc in bb.locals[:bb.argc + 1]):
+                continue
+            seen.add(pth)
+            for blk, t in bb.calls():
+                n += 1
+                if core.call_matches(t, ADDR_REWRITE):
+                    bad.append((bb, blk, t["callee"]))
+                for a in t["args"]:
+                    if a.get("k") == "const" and core.re.search(ADDR_REWRITE, str(a.get("fn") or "")):
+                        bad.append((bb, blk, a.get("fn")))
+    chk.floor("calls examined for address rewriting", n, 40)
+    for bb, blk, c in bad:
+        chk.ob("R4.address_identity", bb.path, f"address rewriting call {core.short(c)}", False,
+               f"{c} changes an address between the socket / header and the blacklist comparison: a listed address in its original form no longer matches", where=bb.where(blk))
+    chk.ob("R4.address_identity", "humphrey::http::address", "addresses reach the blacklist comparison as parsed / as reported by the socket", not bad, "")
+
+
 def dispatcher(chk, prog):
     fn = "humphrey_server::server::server::inner_request_handler"
     ms = [m for m in tables.fn_tables(prog, fn) if "RouteType" in m.get("scrut_ty", "")]
@@ -325,6 +365,7 @@ def run(chk):
     address_cases(chk, a, ix, tested)
     from . import c02
     c02.xff_elements(chk, a, "A", "R4.forwarded_recorded")
+    address_identity(chk, a)
     dispatcher(chk, a)
     progs = {"A": a, "D": chk.use(core.load("D", fresh=(chk.tier == "thorough"))), "B": chk.use(core.load("B", fresh=(chk.tier == "thorough")))}
     block_mode(chk, progs)
